@@ -296,7 +296,7 @@ func TestVerif_C08(t *testing.T) {
 	r := vk.Open()
 	defer r.Close()
 	// (a) histories
-	for i := 0; i < r.Pick(24, 400); i++ {
+	for i := 0; i < r.Pick(24, 1600); i++ {
 		kind := "random"
 		if i%3 == 0 {
 			kind = "boundary"
@@ -325,7 +325,7 @@ func TestVerif_C08(t *testing.T) {
 			continue
 		}
 		r.Case(id, n)
-		k, d := c08Concurrent(t, r, r.Rand("c08c", i), n, r.Pick(2500, 20000)/n+50)
+		k, d := c08Concurrent(t, r, r.Rand("c08c", i), n, r.Pick(2500, 80000)/n+50)
 		r.Count("evaluations", 1)
 		r.Distinct("cases", vk.Hash64("c", n))
 		if k != "" {
@@ -397,7 +397,7 @@ func TestVerif_C08(t *testing.T) {
 				mod[gp.topBit] ^= 0x80
 				try(mod, "top bit of the 32-byte ephemeral key (ignored by X25519) flipped")
 			}
-			for k := 0; k < r.Pick(300, 2500); k++ {
+			for k := 0; k < r.Pick(300, 8000); k++ {
 				mod := append([]byte{}, gp.first...)
 				for j := 0; j < 1+rng.IntN(4); j++ {
 					mod[rng.IntN(len(mod))] ^= byte(1 << uint(rng.IntN(8)))
